@@ -52,3 +52,13 @@ func VerifSocketClosed(s mangos.Socket) bool {
 	defer cs.Unlock()
 	return cs.closed
 }
+
+// VerifSetNextPipeID moves the allocator's counter (as if it had come round
+// after 2^31 allocations) without touching the set of ids in use.
+func VerifSetNextPipeID(next uint32) {
+	pipeIDs.lock.Lock()
+	if pipeIDs.used != nil {
+		pipeIDs.next = next
+	}
+	pipeIDs.lock.Unlock()
+}
